@@ -13,6 +13,7 @@ import OpfVerif.Model.Measures
 import OpfVerif.Model.Stream
 import OpfVerif.Model.Learn
 import OpfVerif.Model.Pipeline
+import OpfVerif.Model.ClusterLawful
 import OpfVerif.Gen.Distance
 import OpfVerif.Gen.Decorator
 open Opf
@@ -284,6 +285,27 @@ def runKnnFit : RM String := do
   let fl (a : Array Float) := " ".intercalate (a.toList.map fbits)
   return s!"{match bk with | none => "-1" | some k => toString k} | {" ".intercalate (accs.map fbits)} | {showOpt s.pred} | {showNats s.root} | {showNats s.lab} | {fl s.cost} | {fl s.dens} | {showNats s.order} | {fbits s.constant} {fbits s.minD} {fbits s.maxD} | {fbits (decF s.sub.bound)} | {if s.tapeOk then 1 else 0} {rest.length}"
 
+/-- `lawclu unsup force negTop n {visited nbrs}*n dens[n] cost0[n] tlabel[n] lenOrder order..` : replay the real
+removal order of a clustering through the relational semantics (tier B) -/
+def runLawClu : RM String := do
+  let unsup := (← nextN) == 1
+  let force := (← nextN) == 1
+  let negTop ← nextI
+  let n ← nextN
+  let nb ← readLists n
+  let dens ← nextIs n
+  let c0 ← nextIs n
+  let tl ← nextNs n
+  let lo ← nextN
+  let ord ← nextNs lo
+  let I : CluInst := { n := n, nbrs := fun p => nb.getD p [], dens := fun x => dens.getD x 0, cost0 := fun x => c0.getD x 0,
+                       tlabel := fun x => tl.getD x 0, unsup := unsup, force := force, negTop := negTop }
+  match I.runPicksCluF (CluInst.freeze n (I.init (fun _ => 0))) ord.toList with
+  | none => return "unlawful"
+  | some s =>
+    let rng := Array.range n
+    return s!"lawful {if I.isFinal s then 1 else 0} | {showInts (rng.map s.cost)} | {showOpt (rng.map s.pred)} | {showNats (rng.map s.root)} | {showNats (rng.map s.lab)} | {s.next}"
+
 def runSelMax : RM String := do
   let start ← nextI
   let n ← nextN
@@ -471,6 +493,7 @@ def dispatch (line : String) : String :=
     | "selmax" => run runSelMax
     | "selcut" => run runSelCut
     | "lawfit" => run runLawFit
+    | "lawclu" => run runLawClu
     | "lawprim" => run runLawPrim
     | _ => "bad-op"
 
